@@ -121,6 +121,38 @@ def segment_logsumexp_source(f):
     return U(a) if ok else None
 
 
+def prior_space_follows_likelihood(repo, res, rid):
+    """BeliefPropagation.__init__ must bring the prior grid into the likelihood's space for *every*
+    space, unconditionally: priors are mutated in place by earlier runs (a log-space run leaves the
+    caller's object in log space), so converting only towards one space makes a later run in the
+    other space combine log priors with linear likelihoods."""
+    from ..base import Defs, bool_guards
+
+    f = repo.fn("discrete", "BeliefPropagation.__init__")
+    d = Defs(f)
+    calls = []
+    for st, g in stmts(f):
+        for c in ast.walk(st) if isinstance(st, (ast.Expr, ast.Assign)) else []:
+            if isinstance(c, ast.Call) and isinstance(c.func, ast.Attribute) and c.func.attr == "force_probability_space" and d.origins(c.func.value) & {"<param priors>", "self.priors"}:
+                calls.append((c, g))
+    if not calls:
+        res.bad(rid, "discrete.BeliefPropagation.__init__ converts the priors to the likelihood's probability space", "no force_probability_space call on the prior grid: priors left in whatever space an earlier run put them", repo.loc(f))
+        return
+    for c, g in calls:
+        # `if bad: raise ...` rejections are not conditions of the normal path
+        rejecting = {id(x.test) for x, _ in stmts(f) if isinstance(x, ast.If) and x.body and isinstance(x.body[-1], ast.Raise) and not x.orelse}
+        conds = [U(e) if pol else f"not ({U(e)})" for e, pol in bool_guards(g) if not (not pol and id(e) in rejecting)]
+        arg = c.args[0] if c.args else next((k.value for k in c.keywords), None)
+        o = d.origins(arg) if arg is not None else set()
+        ok_arg = o and o <= {"lik.probability_space", "self.lik.probability_space"}
+        if conds:
+            res.bad(rid, "discrete.BeliefPropagation.__init__ converts the priors to the likelihood's probability space", f"the conversion runs only when {' and '.join(conds)}: a prior object left in the other space by an earlier run is then combined with likelihoods of this space", repo.loc(f, c))
+        elif not ok_arg:
+            res.bad(rid, "discrete.BeliefPropagation.__init__ converts the priors to the likelihood's probability space", f"target space is `{U(arg)}` (origins {sorted(o)}), not lik.probability_space", repo.loc(f, c))
+        else:
+            res.ok(rid, "discrete.BeliefPropagation.__init__ converts the priors to the likelihood's probability space", "unconditional force_probability_space(lik.probability_space)", repo.loc(f, c))
+
+
 def run(repo, res):
     res.rule("R12.1", "each likelihood-space operation of Likelihoods has a LogLikelihoods override that is its image under tau (x -> +, / -> -, v**f -> f*v, np.sum -> logsumexp, pmf -> logpmf, 1 -> 0, 0 -> -inf, reduceat over I -> segment-wise logsumexp over the same I), compared on normalised ASTs; an arithmetic operation without override is a violation")
     res.rule("R12.2", "in BeliefPropagation values in likelihood space are combined only through self.lik.* (and max/argmax); raw * / + - np.sum on them is a violation; the Poisson function of outside_maximization is chosen per space like _lik")
@@ -243,6 +275,8 @@ def run(repo, res):
                 cur = cur.orelse[0] if cur.orelse and isinstance(cur.orelse[0], ast.If) else None
     res.require(sel == {"LOG_GRID": "scipy.stats.poisson.logpmf", "LIN_GRID": "scipy.stats.poisson.pmf"}, "R12.2", "discrete.BeliefPropagation.outside_maximization Poisson function follows the probability space", f"selection {sel}", repo.loc(om), f"{sel}")
 
+    res.rule("R12.4", "BeliefPropagation.__init__ converts the prior grid to lik.probability_space unconditionally (for either space), so priors and likelihoods are always combined in one space whatever an earlier run did to the caller's prior object")
+    prior_space_follows_likelihood(repo, res, "R12.4")
     # R12.3 -------------------------------------------------------------------------
     fp = repo.fn("node_time_class", "NodeTimeValues.force_probability_space")
     conv = {}
@@ -281,6 +315,8 @@ def run(repo, res):
 
 
 VARIANTS = [
+    dict(name="prior-conversion-only-towards-log", mod="discrete", expect="fire", rule="R12.4", old="        self.priors.force_probability_space(lik.probability_space)\n", new="        if lik.probability_space == LOG_GRID:\n            self.priors.force_probability_space(lik.probability_space)\n"),
+    dict(name="prior-conversion-fixed-target", mod="discrete", expect="fire", rule="R12.4", old="        self.priors.force_probability_space(lik.probability_space)\n", new="        self.priors.force_probability_space(LOG_GRID)\n"),
     dict(name="log-combine-multiplies", mod="discrete", expect="fire", rule="R12.1", old="        return loglik_1 + loglik_2", new="        return loglik_1 * loglik_2"),
     dict(name="log-scale-power", mod="discrete", expect="fire", rule="R12.1", old="        return fraction * value", new="        return value**fraction"),
     dict(name="override-deleted", mod="discrete", expect="fire", rule="R12.1", old="    def marginalize(self, loglik):\n        \"\"\"\n        Return the logged sum of likelihoods\n        \"\"\"\n        return self.logsumexp(loglik)\n", new=""),
